@@ -334,6 +334,29 @@ impl World {
             let _ = catch(|| self.rt.block_on(self.store.add_shred_from_dissemination(v)));
         }
     }
+    /// D15: a genuine shred of the correct leader whose (unauthenticated) data/coding type a relay flipped arrives from
+    /// dissemination: it passes `try_new` (with the cached commitment, as the node validates) and is handed to the
+    /// blockstore, through `feed` (compared with the model: attribute `ty = 0`). It must be ignored: `WrongType`, no
+    /// event - the step / event / served-shred oracles of the case go on as if it had never arrived.
+    fn type_flip_attempt(&mut self, vs: &ValidatedShred) {
+        let mut w = shredwire::Wire::of(vs.as_shred());
+        w.tag ^= 1;
+        let Some(flipped) = w.decode() else { return };
+        let (slot, si, _, idx, _) = vs.payload().verif_parts();
+        let cached = self.store.cached_commitment(slot, si);
+        let pk = self.sk.to_pk();
+        let Ok(v) = ValidatedShred::try_new(flipped, cached.as_ref(), &pk) else {
+            self.rec.count("type-flip:refused-by-try_new");
+            return;
+        };
+        let nev = self.events.len();
+        let r = self.feed(&v, None);
+        self.rec.count(&format!("type-flip:{r}"));
+        let quiet = self.events.len() == nev;
+        self.rec.oracle(r == "wrongtype" && quiet, "relayed-type-flip-not-ignored", || {
+            format!("shred {idx} of slice {} of slot {} of a correct leader with its data/coding type flipped by a relay (passes try_new): add_shred_from_dissemination answered `{r}`, new events {:?}; it must be ignored (WrongType, nothing stored, nobody flagged)", si_usize(si), slot.inner(), &self.events[nev..])
+        });
+    }
     /// feeds one shred; `rep` = Some(hash id, hash) for the repair path
     fn feed(&mut self, vs: &ValidatedShred, rep: Option<&(u64, BlockHash)>) -> String {
         let a = self.attrs(vs);
@@ -356,6 +379,11 @@ impl World {
                 alpenglow::consensus::AddShredError::Duplicate => "dup",
                 alpenglow::consensus::AddShredError::Equivocation => "equiv",
                 alpenglow::consensus::AddShredError::InvalidShred => "invalidshred",
+                // (`WrongType` since the D15 fix; matched by name so that the harness also builds against a tree without it)
+                #[allow(unreachable_patterns)]
+                other if format!("{other:?}") == "WrongType" => "wrongtype",
+                #[allow(unreachable_patterns)]
+                _ => "other-error",
             }
             .to_string(),
         };
@@ -675,6 +703,12 @@ fn main() {
                 if !junk_tried[*s] && !seen[*s].is_empty() && seen[*s].len() < DATA_SHREDS && seen[*s].iter().all(|j| j > i) {
                     junk_tried[*s] = true;
                     w.junk_sig_attempt(&built[*s].shreds[*i], &mut rng);
+                }
+                // D15: now and then a relay's type-flipped copy of some shred of the block arrives first (never as the
+                // very first shred of the slot: `FirstShred` accounting below starts with a genuine one)
+                if k > 0 && rng.chance(1, 8) {
+                    let (fs, fi) = (rng.below(n as u64) as usize, rng.below(64) as usize);
+                    w.type_flip_attempt(&built[fs].shreds[fi]);
                 }
                 let nev = w.events.len();
                 let r = w.feed(&built[*s].shreds[*i], None);
